@@ -190,7 +190,7 @@ theorem vert_eq {pb : Problem} {rid : List (List Int)}
       | none => rfl
       | some k =>
         obtain ⟨g1, g2, _, _⟩ := firstB_some.1 hfb
-        simp only [Option.map_some]
+        dsimp only [Option.map_some]
         exact colPost pb.height pb.width y x k hx (by omega) (by omega)
     · rw [if_neg h2, if_neg (by simpa [dV] using h2)]
   · rw [if_neg (by omega), if_neg h1]
@@ -216,7 +216,7 @@ theorem horiz_eq {pb : Problem} {rid : List (List Int)}
       | none => rfl
       | some k =>
         obtain ⟨g1, g2, _, _⟩ := firstB_some.1 hfb
-        simp only [Option.map_some]
+        dsimp only [Option.map_some]
         exact rowPost pb.height pb.width y x k hy (by omega) (by omega)
     · rw [if_neg h2, if_neg (by simpa [dH] using h2)]
   · rw [if_neg (by omega), if_neg h1]
@@ -228,6 +228,92 @@ theorem cellCs_eq {pb : Problem} {rid : List (List Int)}
       = .ok (cellV pb y x ++ cellH pb y x) := by
   rw [cellCs_unfold]
   simp only
-  rw [tableGet_rep hr hy hx, ok_bind, if_neg (by simp; omega), vert_eq hr hy hx, ok_bind, horiz_eq hr hy hx, ok_bind]
+  rw [tableGet_rep hr hy hx, ok_bind, if_neg (by simp), vert_eq hr hy hx, ok_bind, horiz_eq hr hy hx]
+  rfl
+
+/-! ### the two graph constraints -/
+
+/-- The constraints of `graph.active_vertices_not_adjacent(solver, is_black)`. -/
+def naCs (h w : Nat) : List Expr :=
+  (C08Adj.vPairs h w).map (fun yx => C08Adj.pairC (.bvar ((yx.1 + 1) * w + yx.2)) (.bvar (yx.1 * w + yx.2))) ++
+  (C08Adj.hPairs h w).map (fun yx => C08Adj.pairC (.bvar (yx.1 * w + (yx.2 + 1))) (.bvar (yx.1 * w + yx.2)))
+
+theorem getE_bvars (n i : Nat) (hi : i < n) : getE (bvars 0 n) i = .ok (.bvar i) := by
+  rw [getE_eq_ok (by simp [bvars]; exact hi)]
+  simp [bvars]
+
+theorem na_eq (h w : Nat) : notAdjacentGrid h w (bvars 0 (h * w)) = .ok { cs := naCs h w } := by
+  unfold notAdjacentGrid
+  simp only
+  rw [mapM_eq_ok_map (g := fun yx : Nat × Nat =>
+    C08Adj.pairC (.bvar ((yx.1 + 1) * w + yx.2)) (.bvar (yx.1 * w + yx.2)))]
+  · rw [ok_bind, mapM_eq_ok_map (g := fun yx : Nat × Nat =>
+      C08Adj.pairC (.bvar (yx.1 * w + (yx.2 + 1))) (.bvar (yx.1 * w + yx.2)))]
+    · rfl
+    · intro yx hyx
+      obtain ⟨hy, hx⟩ := C08Adj.mem_hPairs.1 hyx
+      rw [getE_bvars _ _ (C08Adj.cell_lt hy hx), ok_bind, getE_bvars _ _ (C08Adj.cell_lt hy (by omega)), ok_bind]
+      rfl
+  · intro yx hyx
+    obtain ⟨hy, hx⟩ := C08Adj.mem_vPairs.1 hyx
+    rw [getE_bvars _ _ (C08Adj.cell_lt hy hx), ok_bind, getE_bvars _ _ (C08Adj.cell_lt (by omega) hx), ok_bind]
+    rfl
+
+/-- `~is_black`, flattened. -/
+def nots (n : Nat) : List Expr := (bvars 0 n).map fun a => .node .not [a]
+
+theorem nots_boolArgs (n : Nat) : BoolArgs n (nots n) := by
+  intro e he
+  simp only [nots, bvars, List.mem_map, List.mem_range] at he
+  obtain ⟨_, ⟨i, hi, rfl⟩, rfl⟩ := he
+  refine ⟨rfl, ?_⟩
+  simp only [Expr.varsBelow, Expr.varsBelow.varsBelowList, decide_eq_true_eq, Bool.and_true]
+  omega
+
+theorem nots_length (n : Nat) : (nots n).length = n := by simp [nots, bvars]
+
+/-- The connectivity fragment. -/
+def avc (pb : Problem) : Prog :=
+  C04L1.avcProg (Graph.grid pb.height pb.width) (nots (pb.height * pb.width)) (pb.height * pb.width) false
+
+theorem grid_pos {pb : Problem} (hwf : WellFormed pb) : 0 < (Graph.grid pb.height pb.width).n :=
+  Nat.mul_pos hwf.1 hwf.2.1
+
+theorem avc_eq {pb : Problem} (hwf : WellFormed pb) :
+    activeVerticesConnected (Graph.grid pb.height pb.width) (nots (pb.height * pb.width))
+      (pb.height * pb.width) false false = .ok (avc pb) :=
+  C04L1.avc_eq_prog (grid_pos hwf) (C04Prim.grid_wf _ _) (by simp [nots_length, Graph.grid])
+    (nots_boolArgs _)
+
+/-! ### the posted program in closed form -/
+
+/-- The "two consecutive room borders" constraints. -/
+def lineCs (pb : Problem) : List Expr :=
+  (cellsOf pb.height pb.width).flatMap fun p => cellV pb p.1 p.2 ++ cellH pb p.1 p.2
+
+theorem mem_cellsOf {h w : Nat} {p : Nat × Nat} : p ∈ cellsOf h w ↔ p.1 < h ∧ p.2 < w := by
+  simp only [cellsOf, List.mem_flatMap, List.mem_range, List.mem_map]
+  constructor
+  · rintro ⟨y, hy, x, hx, rfl⟩; exact ⟨hy, hx⟩
+  · rintro ⟨hy, hx⟩; exact ⟨p.1, hy, p.2, hx, rfl⟩
+
+theorem program_eq {pb : Problem} (hwf : WellFormed pb) :
+    program pb = .ok { decls := List.replicate (pb.height * pb.width) .bool ++ (avc pb).decls,
+                       cs := naCs pb.height pb.width ++ (avc pb).cs ++ roomCs pb ++ lineCs pb,
+                       keys := List.range (pb.height * pb.width) } := by
+  obtain ⟨rid, hrid, hrep⟩ := roomLoop_wf hwf
+  unfold program programWith
+  simp only
+  rw [C11Grid.addKeys_bvars, ok_bind, na_eq, ok_bind]
+  rw [C11CL.unop_invert_arr2 _ _ _ (by simp [bvars]), ok_bind]
+  have hflat : (PyV.arr2 true pb.height pb.width
+      ((bvars 0 (pb.height * pb.width)).map fun a => Expr.node .not [a])).flat = nots (pb.height * pb.width) := rfl
+  rw [hflat, avc_eq hwf, ok_bind, hrid, ok_bind]
+  simp only
+  rw [mapM_eq_ok_map (g := fun p : Nat × Nat => cellV pb p.1 p.2 ++ cellH pb p.1 p.2)]
+  · simp only [ok_bind, lineCs, List.flatMap_def]
+  · intro p hp
+    obtain ⟨h1, h2⟩ := mem_cellsOf.1 hp
+    exact cellCs_eq hrep h1 h2
 
 end Cspuz.Proofs.C11HeyawakeB
